@@ -29,12 +29,20 @@ def gen_cases_for(seed_, n):
         rng = rng_for(PROP, seed_, i)
         inputs = []
         for k in range(rng.randint(1, 3)):
-            prof = rng.choice(["tree", "tree", "small", "strings", "merge", "shared", "unicode"])
+            prof = rng.choice(["tree", "tree", "small", "strings", "merge", "shared", "unicode", "oddnames"])
             if prof == "shared":
                 # nested layout puts the shared child into the root and injects absolute paths ('Root.Child') for it
                 a, b, c = rng.sample(["alpha", "beta", "gamma", "delta", "omega", "sigma"], 3)
                 child = {"x": 1, "y": rng.choice([2, "s", 2.5])}
                 samples = [{a: {"first": dict(child), b: {"inner": dict(child), "z": k}}, c: {"k": [1]}}]
+                merge = [["exact"]]
+            elif prof == "oddnames":
+                # model names that label conversion rewrites: leading digit 0 ('0day' -> '_day...'), names that coincide only after
+                # conversion in an ancestor/descendant pair ('größe' containing 'grosse'), punctuation
+                outer, inner_k = rng.choice([("größe", "grosse"), ("0day_reports", "1st_items"), ("a-b", "a.b"), ("naïve", "naive"), ("0x_items", "00_items")])
+                samples = [{outer: {inner_k: {"v": 1, "w": "s"}, "n": 2}, "plain": 1}]
+                if rng.random() < 0.5:
+                    samples.append({outer: {inner_k: {"v": 2}, "n": 3}})
                 merge = [["exact"]]
             elif prof == "unicode":
                 ks = rng.sample(["données", "ключ", "straße", "naïve", "Ünï", "λέξη", "émigré", "ñandú", "plain", "other"], 4)
